@@ -89,6 +89,28 @@ theorem mprotect_perm {P : Nat} (hP : 0 < P) (k : Kernel) (a len : Nat) (p : Per
 @[simp] theorem mlockK_al (P : Nat) (k : Kernel) (a len : Nat) : (mlockK P k a len).1.al = k.al := rfl
 @[simp] theorem mlockK_fr (P : Nat) (k : Kernel) (a len : Nat) : (mlockK P k a len).1.fr = k.fr := rfl
 
+@[simp] theorem madviseK_perm (P : Nat) (k : Kernel) (a len : Nat) (b : Bool) : (madviseK P k a len b).perm = k.perm := rfl
+@[simp] theorem madviseK_locked (P : Nat) (k : Kernel) (a len : Nat) (b : Bool) :
+    (madviseK P k a len b).locked = k.locked := rfl
+@[simp] theorem madviseK_brk (P : Nat) (k : Kernel) (a len : Nat) (b : Bool) : (madviseK P k a len b).brk = k.brk := rfl
+@[simp] theorem madviseK_al (P : Nat) (k : Kernel) (a len : Nat) (b : Bool) : (madviseK P k a len b).al = k.al := rfl
+@[simp] theorem madviseK_fr (P : Nat) (k : Kernel) (a len : Nat) (b : Bool) : (madviseK P k a len b).fr = k.fr := rfl
+
+theorem madviseK_dontdump {P : Nat} (hP : 0 < P) (k : Kernel) (a len : Nat) (b : Bool) (i : Nat) :
+    (madviseK P k (a * P) len b).dontdump i =
+      if a ≤ i ∧ i < a + pagesOf P len then b else k.dontdump i := by
+  simp [madviseK, div_aligned hP, pageEnd_aligned hP]
+
+@[simp] theorem mprotect_dontdump (P : Nat) (k : Kernel) (a len : Nat) (p : Perm) :
+    (mprotect P k a len p).dontdump = k.dontdump := by
+  unfold mprotect; split <;> rfl
+@[simp] theorem munlockK_dontdump (P : Nat) (k : Kernel) (a len : Nat) : (munlockK P k a len).dontdump = k.dontdump := rfl
+@[simp] theorem mlockK_dontdump (P : Nat) (k : Kernel) (a len : Nat) : (mlockK P k a len).1.dontdump = k.dontdump := rfl
+
+/-- `mlock` / `munlock` do not look at `VM_DONTDUMP` -/
+@[simp] theorem mlockK_madvise_snd (P : Nat) (k : Kernel) (a len a' len' : Nat) (b : Bool) :
+    (mlockK P (madviseK P k a' len' b) a len).2 = (mlockK P k a len).2 := rfl
+
 theorem munlockK_locked {P : Nat} (hP : 0 < P) (k : Kernel) (a len : Nat) (i : Nat) :
     (munlockK P k (a * P) len).locked i =
       if a ≤ i ∧ i < a + pagesOf P len then false else k.locked i := by
